@@ -26,6 +26,26 @@ def success_edges(bv, pred):
     return out
 
 
+def nonce_display(R, rule, c, W):
+    """Display for Nonce prints hex::encode of all 32 bytes (64 lower-case hex digits); shared by C01 (digest component) and
+    C03 (cup2key value).  Returns the body view (or None)."""
+    nd = lib.one(R, rule, c, "Display for Nonce", item="fmt", impl_self="cup_ecdsa::Nonce", impl_trait="std::fmt::Display")
+    if nd:
+        wf = [t for _, t in nd.calls() if lib.callee_is(t, "write_fmt")]
+        ok = False
+        det = ""
+        if wf:
+            ft = terms.format_term(nd, nd.trace_op(wf[0]["args"][1]))
+            if ft:
+                det = "%s %s" % (ft[0], [terms.render(nd, a, W, {1: "self"}) for _, a in ft[1]])
+                ok = ft[0] == "{0}" and [terms.render(nd, a, W, {1: "self"}) for _, a in ft[1]] == ["encode(self.0)"] and [k for k, _ in ft[1]] == ["display"]
+        R.check(rule, "nonce-display", ok, det, "Nonce prints as %s, expected hex::encode(self.0)" % det)
+        adt = c.adts.get("cup_ecdsa::Nonce")
+        R.check(rule, "nonce-width", adt and c.types[adt["variants"][0]["fields"][0]["t"]]["s"] == "[u8; 32]", "Nonce([u8; 32])", "Nonce is not 32 bytes")
+
+    return nd
+
+
 def key_map_registers_all(nw, W):
     """Does StandardCupv2Handler::new register (id -> key) for the latest key and for every historical key?
     Recognised spellings: once(latest).chain(historical).map(|k| (k.id, k.key)).collect(), and HashMap::new() followed by
@@ -227,19 +247,7 @@ def run(F, R):
         R.check("C01-R3", "returns-the-digest", ret[0] == "call" and ret[3] == fin[0], "returns finalize()", "make_transaction_hash does not return the finalized digest")
         got = terms.digest_chain(mth, W, fin[0], {1: "request_body", 2: "response_body", 3: "key_id", 4: "nonce"}, xform=lambda t_: optnorm.inline_all(W, mth, t_))
         R.check("C01-R3", "composition", got == EXPECTED_DIGEST, str(got), "digest is %s, expected %s" % (got, EXPECTED_DIGEST), lib.loc(mth, fin[0]))
-    nd = lib.one(R, "C01-R3", c, "Display for Nonce", item="fmt", impl_self="cup_ecdsa::Nonce", impl_trait="std::fmt::Display")
-    if nd:
-        wf = [t for _, t in nd.calls() if lib.callee_is(t, "write_fmt")]
-        ok = False
-        det = ""
-        if wf:
-            ft = terms.format_term(nd, nd.trace_op(wf[0]["args"][1]))
-            if ft:
-                det = "%s %s" % (ft[0], [terms.render(nd, a, W, {1: "self"}) for _, a in ft[1]])
-                ok = ft[0] == "{0}" and [terms.render(nd, a, W, {1: "self"}) for _, a in ft[1]] == ["encode(self.0)"] and [k for k, _ in ft[1]] == ["display"]
-        R.check("C01-R3", "nonce-display", ok, det, "Nonce prints as %s, expected hex::encode(self.0)" % det)
-        adt = c.adts.get("cup_ecdsa::Nonce")
-        R.check("C01-R3", "nonce-width", adt and c.types[adt["variants"][0]["fields"][0]["t"]]["s"] == "[u8; 32]", "Nonce([u8; 32])", "Nonce is not 32 bytes")
+    nd = nonce_display(R, "C01-R3", c, W)
 
     # ---------------------------------------------------------------- R4 full-width comparison
     R.rule("C01-R4", "the request-hash comparison is over the whole digest and the whole decoded value (no slicing, prefix or zip on either operand)")
